@@ -11,7 +11,7 @@ Every definition cites the Rust function it models.
 -/
 import DdsModel.ConvF32
 namespace Dds.Conv
-open Dds.F32
+open Dds.CF32
 
 def w8 (n : Nat) : Nat := n % 256
 def w16 (n : Nat) : Nat := n % 65536
